@@ -87,7 +87,7 @@ class ScalarProductFlow(FlowInterface.FlowInterface):
     """
 
     def __init__(
-        self, n: int = 2, weight: str = "pt2", pseudorapidity_gap: float = 0.0
+        self, n: int = 2, weight: str = "pT2", pseudorapidity_gap: float = 0.0
     ) -> None:
         """
         Initialize the ScalarProductFlow object.
@@ -97,7 +97,7 @@ class ScalarProductFlow(FlowInterface.FlowInterface):
         n : int, optional
             The value of the harmonic. Default is 2.
         weight : str, optional
-            The weight used for calculating the flow. Default is "pt2".
+            The weight used for calculating the flow. Default is "pT2".
         pseudorapidity_gap : float, optional
             The pseudorapidity gap used for dividing the particles into sub-events.
             Default is 0.0.
